@@ -48,10 +48,12 @@ def E_bin(n, s):
     s = int(s)
     if s < 1:
         return INF
+    if s == 1 and isinstance(n, int):
+        return n * (n - 1) // 2            # level t = n-1: t*n - C(t+1, t-1)
     t = 1
     while not (n <= comb(s + t, s)):
         t += 1
-        if t > 10000:
+        if t > 10 ** 7:
             raise RuntimeError("E_bin: level search does not terminate")
     return t * n - comb(s + t, t - 1)
 
